@@ -1,4 +1,5 @@
 import H2V.Lemmas.Comp
+import H2V.Model.ConnCounts
 /-
   Component-level property theorems (flow-control arithmetic and the per-stream state machine),
   about the very definitions the connection model (`H2V/Model/Conn*.lean`) is built from.
@@ -67,5 +68,85 @@ theorem state_machine_refines_rfc (s : State) (ops : List Op) (h : Legal s ops) 
   trace_refines s ops h
 
 end C04
+
+-- ============================================================================ C05 / C18 (counters and quotas)
+namespace C05
+
+/-- **a stream is only counted while there is room**: `can_inc_num_recv_streams` / `…_send_streams`
+    hold exactly when one more stream still fits under the limit (the guard every open path asks) -/
+theorem can_inc_iff (c : Counts) :
+    (c.canIncNumRecvStreams = true ↔ c.numRecvStreams + 1 ≤ c.maxRecvStreams) ∧
+    (c.canIncNumSendStreams = true ↔ c.numSendStreams + 1 ≤ c.maxSendStreams) := by
+  simp [Counts.canIncNumRecvStreams, Counts.canIncNumSendStreams]; omega
+
+/-- **the peer's new SETTINGS_MAX_CONCURRENT_STREAMS replaces the send limit**; an absent value in the
+    first SETTINGS means "no limit", in later ones "unchanged" -/
+theorem apply_remote_settings (c : Counts) (v : Option Nat) (initial : Bool) :
+    (c.applyRemoteSettings v initial).maxSendStreams =
+      match v with | some n => n | none => if initial then USIZE_MAX else c.maxSendStreams := by
+  cases v <;> simp [Counts.applyRemoteSettings] <;> split <;> rfl
+
+end C05
+
+namespace C18
+
+/-- **the memory of locally reset streams never exceeds its quota**: the counter only grows through
+    `inc_num_reset_streams`, which refuses (the Rust `assert!`) beyond `max_local_reset_streams` -/
+theorem reset_quota (c c' : Counts) (h : c.incNumResetStreams = some c') :
+    c'.numLocalResetStreams ≤ c'.maxLocalResetStreams ∧ c'.numLocalResetStreams = c.numLocalResetStreams + 1 := by
+  unfold Counts.incNumResetStreams at h
+  split at h
+  · next hc => cases h; simp [Counts.canIncNumResetStreams] at hc; exact ⟨by simp; omega, rfl⟩
+  · cases h
+
+/-- **library-initiated resets are bounded** (the rapid-reset guard): beyond `max_local_error_resets`
+    the increment is refused — the caller answers with GOAWAY(ENHANCE_YOUR_CALM) instead -/
+theorem local_error_reset_quota (c c' : Counts) (m : Nat) (hm : c.maxLocalErrorResetStreams = some m)
+    (h : c.incNumLocalErrorResets = some c') : c'.numLocalErrorResetStreams ≤ m := by
+  unfold Counts.incNumLocalErrorResets at h
+  split at h
+  · next hc => cases h; simp [Counts.canIncNumLocalErrorResets, hm] at hc; simp; omega
+  · cases h
+
+/-- **a tiny-DATA flood is paid for**: every accepted non-empty DATA frame shorter than the overhead
+    threshold costs `threshold − len` of a budget that only refills by the surplus of larger frames,
+    so a run of such frames ends in `BudgetExhausted` (connection error) after a bounded number -/
+theorem tiny_data_costs (c c' : Counts) (len : Nat) (h0 : len ≠ 0)
+    (hlt : len < Generated.Consts.DEFAULT_DATA_FRAME_OVERHEAD_THRESHOLD)
+    (h : c.recordDataFrame len = (c', true)) :
+    c'.dataFrameBudget.available + (Generated.Consts.DEFAULT_DATA_FRAME_OVERHEAD_THRESHOLD - len) =
+      c.dataFrameBudget.available := by
+  unfold Counts.recordDataFrame at h
+  simp only [h0, if_false, hlt, if_true] at h
+  cases hb : c.dataFrameBudget.consume (Generated.Consts.DEFAULT_DATA_FRAME_OVERHEAD_THRESHOLD - len) with
+  | none => simp [hb] at h
+  | some b =>
+    simp only [hb, Prod.mk.injEq, and_true] at h
+    subst h
+    unfold Budget.consume at hb
+    split at hb
+    · next hge => cases hb; simp only; omega
+    · cases hb
+
+example : (Counts.recordDataFrame {} 1).2 = true := by decide
+
+end C18
+
+-- ============================================================================ C16 (capacity bookkeeping)
+namespace C16
+
+/-- **assigning and claiming capacity are exact and never touch the window**: what
+    `assign_capacity` adds to `available` is exactly what a later `claim_capacity` (capacity given
+    back / handed to a stream) removes; the peer-granted window is untouched by either -/
+theorem assign_claim_exact {f f1 f2 : FlowControl} {sz : Nat}
+    (h1 : f.assignCapacity sz = (f1, .ok ())) (h2 : f1.claimCapacity sz = (f2, .ok ())) :
+    f2.available.val = f.available.val ∧ f2.windowSize = f.windowSize := by
+  obtain ⟨a1, _, w1⟩ := Lemmas.Comp.assignCapacity_ok h1
+  obtain ⟨a2, _, w2⟩ := Lemmas.Comp.claimCapacity_ok h2
+  exact ⟨by omega, by rw [w2, w1]⟩
+
+example : (FlowControl.assignCapacity ⟨⟨10⟩, ⟨0⟩⟩ 4) = (⟨⟨10⟩, ⟨4⟩⟩, .ok ()) := by decide
+
+end C16
 
 end H2V.Props.CompBase
